@@ -309,10 +309,47 @@ def thread_try(f, max_chain=14):
     return done
 
 
+def devirtualise(f):
+    """`let secs = Duration::from_secs; secs(5)`: a call through a local that holds one function item is a call of that function"""
+    blocks = f["blocks"]
+    ndef = {}
+    single = {}
+    for b in blocks:
+        for st in b["stmts"]:
+            if st["k"] == "assign" and isinstance(st.get("lhs"), dict):
+                l = st["lhs"]["l"]
+                ndef[l] = ndef.get(l, 0) + 1
+                if _is_local(st["lhs"]):
+                    single[l] = st["rv"]
+        t = b["term"]
+        if t["k"] == "call" and isinstance(t.get("dest"), dict):
+            ndef[t["dest"]["l"]] = ndef.get(t["dest"]["l"], 0) + 1
+    n = 0
+    for b in blocks:
+        t = b["term"]
+        if t["k"] != "call" or not isinstance(t.get("func"), dict):
+            continue
+        l = _plain(t["func"])
+        hops = 0
+        while l is not None and hops < 4 and ndef.get(l) == 1 and l in single:
+            rv = single[l]
+            if rv["k"] != "use":
+                break
+            op = rv.get("op")
+            if isinstance(op, dict) and isinstance(op.get("k"), dict) and "fn" in op["k"]:
+                t["func"] = {"k": op["k"]}
+                n += 1
+                break
+            l = _plain(op)
+            hops += 1
+    return n
+
+
 def normalize_program(d):
     n = 0
     for f in d.get("functions", []):
         if f.get("blocks"):
+            n += devirtualise(f)
             n += thread_function(f)
             n += thread_try(f)
     return n
